@@ -349,7 +349,17 @@ fn explore(ctx: &mut Ctx) {
             }
         }
     }
-    ctx.exhaustive_part("8 cores x {NUL, '/', ':', DEL, U+0080, fullwidth zero} before / after / between, all types");
+    for c in kvh::gen::SPECIAL_CHARS {
+        for core in ["7", "-12", "true"] {
+            for s in [format!("{c}{core}"), format!("{core}{c}"), format!("{c}")] {
+                for ty in INT_TYPES {
+                    eval(ctx, ty, &s);
+                }
+                eval(ctx, Ty::Bool, &s);
+            }
+        }
+    }
+    ctx.exhaustive_part("16 special chars (BOM, Unicode white space ...) around 3 cores; 8 cores x {NUL, '/', ':', DEL, U+0080, fullwidth zero} before / after / between, all types");
     // (c) neighbourhoods of MIN / MAX for every integer type
     for ty in INT_TYPES {
         let (mn, mx) = bounds(ty);
